@@ -115,6 +115,7 @@ struct lifetime_monitor : public expectation
     {
       sequences->retire_predecessors();
     }
+    sequences->retire();
   }
 
   template <typename ... T>
